@@ -404,6 +404,25 @@ pub fn search(tier: &str, seed: u64, s: &mut Search) {
     for (svg, class) in [(WIDE_GROUP, "witness"), (CLAMPED_ARITH, "witness"), (TWO_FILTERS_LIGHT, "witness"), (HUGE_PATTERN, "witness")] {
         run(&mut wk, s, class, svg, 20, 20, tiny_skia::Transform::identity());
     }
+    // filter regions and primitive subregions of extreme position and extent, also relative to one another
+    {
+        let vals = ["-100000000", "2000000000", "100000100", "1", "0", "-2147483648", "4294967296", "50"];
+        let nsub = (if tier == "thorough" { 400 } else { 60 }) * mult;
+        for _ in 0..nsub {
+            let mut v = |rng: &mut Rng| *rng.pick(&vals);
+            let prim = match rng.below(4) {
+                0 => format!(r#"<feFlood flood-color="red" x="{}" y="{}" width="{}" height="{}"/>"#, v(&mut rng), v(&mut rng), v(&mut rng), v(&mut rng)),
+                1 => format!(r#"<feOffset dx="1" x="{}" width="{}"/><feTile/>"#, v(&mut rng), v(&mut rng)),
+                2 => format!(r#"<feFlood x="{}" y="0" width="{}" height="10"/><feTile/>"#, v(&mut rng), v(&mut rng)),
+                _ => format!(r#"<feGaussianBlur stdDeviation="1" x="{}" y="{}" width="{}" height="{}"/>"#, v(&mut rng), v(&mut rng), v(&mut rng), v(&mut rng)),
+            };
+            let svg = format!(
+                r##"<svg xmlns="http://www.w3.org/2000/svg" width="20" height="20"><filter id="f" filterUnits="userSpaceOnUse" x="{}" y="{}" width="{}" height="{}">{prim}</filter><rect width="20" height="20" filter="url(#f)"/></svg>"##,
+                v(&mut rng), v(&mut rng), v(&mut rng), v(&mut rng)
+            );
+            run(&mut wk, s, "extreme-subregion", &svg, 20, 20, tiny_skia::Transform::identity());
+        }
+    }
     // feTurbulence with every boundary seed (the generator is seeded with |seed|, reduced)
     for sd in ["-2147483648", "-2147483647", "2147483647", "2147483646", "-1", "0", "4294967296", "-1e300", "1e300", "0.5"] {
         for ty in ["turbulence", "fractalNoise"] {
